@@ -326,10 +326,22 @@ package node
 //@   trusted
 //@ func errors.Unwrap
 //@   trusted
+// C02 no-lost-wake-up: probedEmpty(q) counts the Item() probes of q that found it empty. The runner may
+// return after giving up the run token only if, since then, it has seen all four queues empty, or it
+// lost the race for the token to another thread (which then owns the mailbox).
+//@ ghostheap probedEmpty(q lib.QueueMPSC) int
 //@ iface lib.QueueMPSC.Item
+//@   modifies probedEmpty(self)
+//@   ensures probedEmpty(self) == old(probedEmpty(self)) + (result == nil ? 1 : 0)
+//@ ghostheap snapMain(p *process) int
+//@ ghostheap snapSystem(p *process) int
+//@ ghostheap snapUrgent(p *process) int
+//@ ghostheap snapLog(p *process) int
+//@ ghostheap lostRace(p *process) int
 
 //@ func (p *process) run$1
-//@   props C01 C05
+//@   props C01 C05 C02
+//@   requires [mailbox] mailboxWF(p) && p.mailbox.Log != nil && p.mailbox.Log != p.mailbox.Main && p.mailbox.Log != p.mailbox.System && p.mailbox.Log != p.mailbox.Urgent
 //@   protocol procState at p
 //@   requires [holds_token] p != nil && owner(p) == me && fin(p) == 0
 //@   loop 1 invariant [still_owner] owner(p) == me && fin(p) == 0
@@ -338,6 +350,13 @@ package node
 //@   at call ProcessTerminate assert [finaliser_only_after_last_callback] fin(p) == me && (owner(p) == 0 || owner(p) == me)
 //@   at atomic 1 ghost fin = (result != 16 && fin(p) == 0 ? me : fin(p))
 //@   at atomic 2 ghost owner = (result ? 0 : owner(p))
+//@   at atomic 2 ghost snapMain = probedEmpty(p.mailbox.Main)
+//@   at atomic 2 ghost snapSystem = probedEmpty(p.mailbox.System)
+//@   at atomic 2 ghost snapUrgent = probedEmpty(p.mailbox.Urgent)
+//@   at atomic 2 ghost snapLog = probedEmpty(p.mailbox.Log)
+//@   at atomic 2 ghost lostRace = 0
+//@   at atomic 4 ghost lostRace = (result ? 0 : 1)
+//@   ensures [no_lost_wakeup] owner(p) != me && fin(p) != me && lostRace(p) == 0 ==> probedEmpty(p.mailbox.Main) != snapMain(p) && probedEmpty(p.mailbox.System) != snapSystem(p) && probedEmpty(p.mailbox.Urgent) != snapUrgent(p) && probedEmpty(p.mailbox.Log) != snapLog(p)
 //@   at atomic 3 ghost fin = (result != 16 && fin(p) == 0 ? me : fin(p))
 //@   at atomic 4 ghost owner = (result ? me : owner(p))
 
